@@ -75,6 +75,9 @@ func init() {
 		"(time.Time).Before":                       func(x *Exec, st *State, a []*Val, s *types.Signature, p token.Pos) *Val { return scalar(types.Typ[types.Bool], "(bvslt "+a[0].S+" "+a[1].S+")", "Bool") },
 		"(time.Time).Sub":                          func(x *Exec, st *State, a []*Val, s *types.Signature, p token.Pos) *Val { return scalar(s.Results().At(0).Type(), "(bvsub "+a[0].S+" "+a[1].S+")", bvSort(64)) },
 	}
+	for k, v := range gsModelTable {
+		models[k] = v
+	}
 }
 
 // modelByPrefix: families (logging).
